@@ -18,7 +18,7 @@ Driver of the integrated simulation model (exe `drv_sim`).  One request per line
   rolls <day> <m> [[em,s,t],..]   s,t in 0/1 (drawn outcome) or 2 (not drawn)   -> ok
   travel <day> <m> [[site,T],..]                                                -> ok
   unworkable <day> <m> [site,..]                                                -> ok
-  run <N>                                                                       -> ok
+  run <N>                                                                       -> ok wf=<0|1>   (`wfWorld` of the scenario)
   row <n>    -> new:active:rep:nat:exp:emis:mit:non|cost:repCost:natCost:tagged|<per method>;..
                 per method = cost,flags|-,tags|-,visited,travel,survey,upfront,sRolls,tRolls,missingRolls
   trace <n>  -> per method: m issued=[..] plan=[..] out=[[site,complete,inProgress,surveyed,crew|-],..] done=[[site,measured,nTargets],..]
@@ -152,8 +152,8 @@ def showTrace (t : MethTrace) : String :=
   let dn := showList (fun (d : Done) => s!"[{d.sv.site},{d.rep.measured},{d.targets.length}]") t.dones
   s!"{t.m} issued={showList toString t.issued} plan={showList toString t.keys} budget={t.budget} out={outs} done={dn}"
 
-def showRec (r : Rec) : String :=
-  let cov := showList (fun (x : Nat × Bool) => s!"[{x.1},{showBool x.2}]") r.cov
+def showRec (r : Rec) (c : Cov) : String :=
+  let cov := showList (fun (x : Nat × Bool) => s!"[{x.1},{showBool x.2}]") c
   s!"{showBool r.present} {showStatus r.status} {r.activeDays} {r.emitDays} {r.start} {showOptInt r.endDate} " ++
   s!"{r.theoryEnd} {r.mitDays} {showBool r.tagged} {showBy r.by_} {showOptInt r.initDetect} {showOptNat r.initDetectBy} {cov}"
 
@@ -269,7 +269,8 @@ def step (s : DState) (toks : List String) : DState × String :=
     match nat? n with
     | some n =>
       let r := runDays (mkWorld s) (mkProgram s) (mkInputs s) n
-      ({ s with outs := r.1, rows := r.1.map (·.row), final := some r.2, nRun := n }, "ok")
+      ({ s with outs := r.1, rows := r.1.map (·.row), final := some r.2, nRun := n },
+        s!"ok wf={showBool (wfWorld (mkWorld s))}")
     | none => (s, "bad-op")
   | ["row", n] =>
     match nat? n with
@@ -288,8 +289,8 @@ def step (s : DState) (toks : List String) : DState × String :=
   | ["rec", i] =>
     match nat? i, s.final with
     | some i, some st =>
-      match s.ems[i]?, st.ems[i]? with
-      | some info, some e => (s, showRec (recOf s.nRun info e))
+      match s.ems[i]?, st.ss[i]? with
+      | some info, some e => (s, showRec (recOf s.nRun info e) (st.covs.getD i []))
       | _, _ => (s, "no-rec")
     | _, _ => (s, "bad-op")
   | ["state", m] =>
